@@ -279,7 +279,7 @@ func c08Usable(c *ctx, prog string) {
 			_ = e.String()
 			return e.Eval(map[string]interface{}{"a": 1.0})
 		})
-		if res.panicV != nil && !strings.Contains(prog, "self") {
+		if res.panicV != nil {
 			c.disagree(Disagreement{Kind: "compiled-expr-unusable", Prog: prog, Go: res.outcome, Model: "prints and evaluates"})
 		}
 	}
